@@ -133,11 +133,18 @@ class TemplateDPADistinguisherMixin(_BaseTemplateAttackDistinguisherMixin):
     This mixin distinguisher proceeds to the matching phase, once the template are build.
     """
 
+    def _initialize(self, traces, data):
+        super()._initialize(traces=traces, data=data)
+        self._data_to_partition_index = partitioned._define_lut_func(self.partitions)
+
     def _get_dimension(self, traces, data):
         return data.shape[1]
 
     def get_template_index(self, data, i):
-        return data[:, i]
+        indexes = self._data_to_partition_index(data[:, i])
+        if (indexes < 0).any():
+            raise base.DistinguisherError('Some intermediate values have no template: they are not in the partitions used at build time.')
+        return indexes
 
     @property
     def _distinguisher_str(self):
